@@ -3,6 +3,7 @@ CONSTANTS Vars <- VarsXY
  Kinds <- KindsC16
  LitIdx <- LitsSmall
  Imports <- NoImports
+ Configs <- ConfigsNow
  Shape = "mutate-last"
  Emit = TRUE
 SPECIFICATION Spec
